@@ -39,6 +39,7 @@ import pickle
 import re
 import subprocess
 import sys
+import time
 import traceback
 
 from mc import common, par, report
@@ -433,6 +434,7 @@ def explore_histories(rep, tag, alphabet, depth, modes):
     base_viol = {}
     P = min(2, depth)
     for mode in modes:
+        t0 = time.time()
         exp = expected_for(mode, alphabet)
         touching = {n for n in alphabet if exp[n][0] != 0 or "help" in n or n.endswith("-h")}
 
@@ -459,6 +461,7 @@ def explore_histories(rep, tag, alphabet, depth, modes):
             nontrivial += (n ** (k - 1) - (n - len(touching)) ** (k - 1)) * n
         if mode == "default":
             base_viol = viol_map
+
         def sig_of(h, d):
             mtag = "" if mode == "default" or set(d) <= set(base_viol.get(h, ())) else mode + ":"
             return "history:%s%s" % (mtag, ",".join(d))
@@ -475,7 +478,8 @@ def explore_histories(rep, tag, alphabet, depth, modes):
         viol_map = report_minimal(rep, viol_map, sig_of, confirm)
         mins = minimal(viol_map)
         rep.part("histories/%s/%s" % (tag, mode), alphabet=list(alphabet), depth=depth, histories=n_hist,
-                 violating_histories=len(viol_map), minimal_violating=[list(h) for h in mins][:40])
+                 violating_histories=len(viol_map), minimal_violating=[list(h) for h in mins][:40],
+                 wall_s=round(time.time() - t0, 1))
     return tot_hist, tot_runs, nontrivial
 
 
@@ -661,7 +665,7 @@ def component_ref(key):
     return forked(fresh)
 
 
-def run_component_case(case, refs=None):
+def run_component_case(case):
     """replay of one component case in a pristine child -> (reference, observed) or None"""
     kind = case["kind"]
     if kind == "seq":
@@ -691,6 +695,7 @@ def run_component_case(case, refs=None):
 
 
 def explore_components(rep, seq_depth, pair_ios):
+    t0 = time.time()
     names = sorted(FACTORIES)
     keys = [(f, io) for f in names for io in FACTORIES[f][1]]
     refs = dict(zip(keys, par.pmap(component_ref, keys)))
@@ -801,7 +806,7 @@ def explore_components(rep, seq_depth, pair_ios):
             continue
         rep.violation(report.viol(sig, what, dict(c, part="component"), _clip(got[0]), _clip(got[1])))
     rep.part("components", factories=len(names), sequence_depth=seq_depth, sequence_and_twice_cases=n_seq,
-             pair_cases=n_pair, pair_io_kinds=list(pair_ios), violating=len(bad))
+             pair_cases=n_pair, pair_io_kinds=list(pair_ios), violating=len(bad), wall_s=round(time.time() - t0, 1))
     nontriv = n_pair + sum(nodes_below(len(FACTORIES[f][1]), seq_depth) - len(FACTORIES[f][1]) * seq_depth for f in names)
     return n_seq + n_pair, nontriv
 
@@ -870,6 +875,7 @@ def layout_diffclass(ref, got):
 
 
 def explore_layout(rep, depth):
+    t0 = time.time()
     names = sorted(BATCHES)
     refs = {n: forked(run_layout, (n,)) for n in names}
 
@@ -892,7 +898,7 @@ def explore_layout(rep, depth):
 
     report_minimal(rep, vm, lambda h, d: "layout-reuse:BlockLayout:" + ",".join(d), confirm)
     n = nodes_below(len(names), depth)
-    rep.part("layout", batches=names, depth=depth, sequences=n, violating=len(vm))
+    rep.part("layout", batches=names, depth=depth, sequences=n, violating=len(vm), wall_s=round(time.time() - t0, 1))
     return n
 
 
@@ -1006,6 +1012,7 @@ def judge_style(refs, sc, runner):
 
 
 def explore_styles(rep):
+    t0 = time.time()
     refs = style_refs()
     fresh, fk = style_scenarios()
     jobs = [(sc, True) for sc in fresh] + [(sc, False) for sc in fk]
@@ -1035,7 +1042,7 @@ def explore_styles(rep):
         rep.violation(report.viol(sig, what + " (scenario: %s)" % (label,),
                                   {"part": "style", "steps": steps, "twin": twin, "fresh_subprocess": is_fresh}, ref, got))
     rep.part("styles", fresh_subprocess_scenarios=len(fresh), forked_scenarios=len(fk), violating=len(bad),
-             orders_of_four=24, schedules=2)
+             orders_of_four=24, schedules=2, wall_s=round(time.time() - t0, 1))
     return len(jobs)
 
 
